@@ -290,8 +290,31 @@ func init() {
 	reg("strconv.ParseFloat", func(ip *Interp, fr *frame, args []Value) Value {
 		s, ok := args[0].(string)
 		bs := asTerm(args[1])
-		if !ok || !bs.IsConst() {
-			ip.ex.endPath("unsupported", "strconv.ParseFloat of symbolic text (text->float is trusted strconv; only concrete literals are run)")
+		if !bs.IsConst() {
+			ip.ex.endPath("unsupported", "strconv.ParseFloat with symbolic bit size")
+		}
+		if !ok {
+			// Contract stub for symbolic text (the text->float mapping is trusted strconv):
+			// an arbitrary result constrained only by ParseFloat's documented contract.
+			ts := ip.ts
+			ip.freshN++
+			f := ts.Var(fmt.Sprintf("zz_parsefloat%d_bits", ip.freshN), 64)
+			e := ts.Var(fmt.Sprintf("zz_parsefloat%d_err", ip.freshN), 8)
+			ip.ex.note("strconv.ParseFloat contract stub used")
+			ip.ex.Assume(ts.Cmp(OpUlt, e, Const(8, 3)))
+			switch ip.ex.Concretize(e, "ParseFloat outcome") {
+			case 0:
+				ip.ex.Assume(ts.BAnd(ts.BNot(ts.FIsNaN(f)), ts.BNot(ts.FIsInf(f))))
+				if bs.ConstInt() == 32 {
+					ip.ex.Assume(ts.Eq(ts.F32to64(ts.F64to32(f)), f))
+				}
+				return Tuple{f, Iface{}}
+			case 1:
+				return Tuple{Const(64, 0), ip.newNumError("ParseFloat", "?", strconv.ErrSyntax)}
+			default:
+				ip.ex.Assume(ts.FIsInf(f))
+				return Tuple{f, ip.newNumError("ParseFloat", "?", strconv.ErrRange)}
+			}
 		}
 		f, err := strconv.ParseFloat(s, int(bs.ConstInt()))
 		var ev Value = Iface{}
